@@ -356,6 +356,10 @@ func runC17(r *Run, stratum string) *Violation {
 	// unrelated stale ids
 	for i := g.Choose("nstale", 3); i > 0; i-- {
 		sid := hexID(g.Bytes("staleid", 20))
+		if sid == oldID || sid == newID {
+			// "unrelated" must be: a stale record under the id the source is about to report is not one
+			sid = hexID([]byte(fmt.Sprintf("stale-id-stale-id-%03d", i)))
+		}
 		c.plantCheckpoint(perm[g.Choose("staledb", ndb)], stored, sid, offset(), now.Add(-staleDur-time.Hour))
 		c.plantIndex(sid, stored)
 	}
